@@ -2,8 +2,9 @@
    at a point in time, account and transaction listings at a point in time (membership, reverted mask, metadata as
    of t, volume expands).  Each function follows the SQL shape of its BuildDataset/Expand; filters and pagination
    are modelled elsewhere (Filter.v, Page.v).  [None] = the read is rejected (missing feature / invalid query). *)
-From Coq Require Import List ZArith String Bool.
+From Coq Require Import List ZArith String Ascii Bool.
 From LV Require Import Base.Util Ledger.Types Ledger.Core.
+From LV Require Ledger.Filter.   (* not imported: only Filter.segs (strings.Split on ":") is used here, qualified *)
 Import ListNotations.
 Open Scope Z_scope.
 
@@ -115,3 +116,87 @@ Definition read_accounts_expand (f : features) (s : state) (pit : option Z) (eff
   | None => None
   | Some vm => Some (map (fun r => (ar_addr r, filter (fun kv => String.eqb (fst (fst kv)) (ar_addr r)) vm)) (read_accounts f s pit))
   end.
+
+(* ---------- grouped volumes: GetVolumesWithBalances with GroupLvl = g > 0 (resource_volumes.go:Project) ----------
+   account := array_to_string((string_to_array(account, ':'))[1:LEAST(array_length(string_to_array(account, ':'), 1), g)], ':')
+   then  sum(input), sum(output), sum(balance)  group by account, asset.   g = 0: the listing is returned as it is.
+   [Filter.segs] is strings.Split(s, ":") (= string_to_array(s, ':') on non-empty strings; the empty string gives the empty
+   string back on both sides). *)
+
+Fixpoint join_colon (l : list string) : string :=
+  match l with
+  | [] => EmptyString
+  | x :: r => match r with [] => x | _ :: _ => (x ++ String ":"%char (join_colon r))%string end
+  end.
+Definition truncate_addr (g : nat) (a : addr) : addr :=
+  match g with O => a | S _ => join_colon (firstn g (Filter.segs a)) end.
+
+Definition regroup (tr : addr -> addr) (v : volmap) : volmap :=
+  fold_left (fun acc kv => vadd acc (tr (fst (fst kv)), snd (fst kv)) (snd kv)) v [].
+Definition group_volumes (g : nat) (v : volmap) : volmap :=
+  match g with O => v | S _ => regroup (truncate_addr g) v end.
+
+Definition read_volumes_grouped (f : features) (s : state) (w : window) (g : nat) : option volmap :=
+  option_map (group_volumes g) (read_volumes f s w).
+
+(* ---------- metadata filters on account metadata: metadata[k] = v, $exists metadata k, closed under $and / $or / $not ----------
+   (the full filter language and its SQL emission are Ledger/Filter.v; MetaFilterProofs.mf_filter embeds these there) *)
+Inductive mfilter :=
+| MfMatch (k v : str) | MfExists (k : str)
+| MfAnd (a b : mfilter) | MfOr (a b : mfilter) | MfNot (a : mfilter).
+Fixpoint msat (q : mfilter) (m : meta) : bool :=
+  match q with
+  | MfMatch k v => match mget m k with Some x => String.eqb x v | None => false end
+  | MfExists k => match mget m k with Some _ => true | None => false end
+  | MfAnd a b => msat a m && msat b m
+  | MfOr a b => msat a m || msat b m
+  | MfNot a => negb (msat a m)
+  end.
+
+Definition acc_meta_cur (s : state) (a : addr) : meta :=
+  match find_account (s_accounts s) a with Some x => a_meta x | None => [] end.
+(* first_value(metadata) over (partition by accounts_address order by revision desc) with no bound on the date *)
+Definition ahist_last (h : list ahist) (a : addr) : meta :=
+  match fold_left (fun best x => if String.eqb (ah_addr x) a
+                                 then match best with Some b => if ah_rev b <? ah_rev x then Some x else best | None => Some x end
+                                 else best) h None with
+  | Some x => ah_meta x | None => [] end.
+
+(* the metadata column of the VOLUMES dataset when the query filters on metadata (resource_volumes.go:BuildDataset):
+   no window: accounts.metadata; with a window: the greatest revision of accounts_metadata dated <= PIT (no bound without a
+   PIT), '{}' when there is none.  The code does not look at ACCOUNT_METADATA_HISTORY here: with the feature DISABLED the
+   table is empty and every account carries '{}' (see C17_volumes_filter_history_off_refuted). *)
+Definition vol_meta (s : state) (w : window) (a : addr) : meta :=
+  match w_pit w, w_oot w with
+  | None, None => acc_meta_cur s a
+  | Some t, _ => ahist_at (s_ahist s) a t
+  | None, Some _ => ahist_last (s_ahist s) a
+  end.
+(* GetVolumesWithBalances with an optional metadata filter and a group level: dataset -> WHERE -> group *)
+Definition read_volumes_q (f : features) (s : state) (w : window) (q : option mfilter) (g : nat) : option volmap :=
+  match read_volumes f s w with
+  | None => None
+  | Some v => Some (group_volumes g (match q with
+                                     | None => v
+                                     | Some q' => filter (fun kv => msat q' (vol_meta s w (fst (fst kv)))) v
+                                     end))
+  end.
+
+(* the metadata column of the AGGREGATED BALANCES dataset (resource_aggregated_balances.go): as of the PIT when
+   ACCOUNT_METADATA_HISTORY is SYNC, accounts.metadata otherwise *)
+Definition agg_meta (f : features) (s : state) (pit : option Z) (a : addr) : meta :=
+  match pit with
+  | Some t => if f_acc_hist f then ahist_at (s_ahist s) a t else acc_meta_cur s a
+  | None => acc_meta_cur s a
+  end.
+Definition read_aggregated_q (f : features) (s : state) (pit : option Z) (ins : bool) (q : mfilter) : option (list (asset * Z)) :=
+  let sel := filter (fun kv : key * vol => msat q (agg_meta f s pit (fst (fst kv)))) in
+  match pit with
+  | None => Some (sum_by_asset (sel (s_vols s)))
+  | Some p =>
+    if ins then (if f_moves f then Some (sum_by_asset (sel (volumes_at s p true))) else None)
+    else (if f_pcev f then Some (sum_by_asset (sel (volumes_at s p false))) else None)
+  end.
+(* ListAccounts with a metadata filter: the WHERE runs on the metadata column of the dataset (as of the PIT with the feature) *)
+Definition read_accounts_q (f : features) (s : state) (pit : option Z) (q : mfilter) : list acc_row :=
+  filter (fun r => msat q (ar_meta r)) (read_accounts f s pit).
